@@ -225,6 +225,20 @@ func (e *Engine) schedPoint(g *G) bool {
 	return true
 }
 
+// yieldAfter reports whether the scheduler should be consulted after an
+// operation that may have enabled another goroutine (unlock, signal, done).
+func (e *Engine) yieldAfter(g *G) bool {
+	if len(e.gs) == 1 || e.preempt >= e.opts.Preempt {
+		return false
+	}
+	for _, o := range e.gs {
+		if o != g && (o.status == gRunnable || (o.status == gBlocked && o.ready != nil && o.ready())) {
+			return true
+		}
+	}
+	return false
+}
+
 func (e *Engine) block(g *G, desc string, ready func() bool, resume func()) {
 	g.status = gBlocked
 	g.ready = ready
@@ -664,6 +678,9 @@ func (e *Engine) invoke(g *G, fr *Frame, callee *Closure, args []Value, in ssa.V
 		case callBlocked:
 			return true
 		case callYield:
+			return true
+		case callDoneYield:
+			finish(res)
 			return true
 		case callPushed:
 			return false
